@@ -114,11 +114,17 @@ fn main() {
         let mut ex = Exec::start(&root, &cfg, ntypes);
         let mut obs = vec![];
         let mut applied: Vec<u64> = vec![];
+        // (key, context, type) of every acknowledged event, for the scoped read shapes below
+        let mut placed: Vec<(u64, u64, u64)> = vec![];
+        let mut shape_rng = Rng::for_case(a.seed, "flushwin-shapes", i);
         let mut stage_seen = std::collections::BTreeSet::new();
         let mut fail: Option<String> = None;
+        // failures of the scoped read shapes (never a known class) are reported first
+        let mut shape_fail: Option<String> = None;
         for (n, op) in ops.iter().enumerate() {
-            if let Op::S { k, .. } = op {
+            if let Op::S { k, ctx, ty } = op {
                 applied.push(*k);
+                placed.push((*k, *ctx, *ty));
             }
             let in_window = *op == Op::R && ex.flush_window();
             if let Some(mut line) = ex.exec(op) {
@@ -149,6 +155,43 @@ fn main() {
                         let class = if wk == gk && in_window { "count-dup-flush-window" } else { "-" };
                         fail = Some(format!("{class}\top#{n}: want [{want}] got [{line}] in {}", history_line(&cfg, ntypes, &ops)));
                     }
+                    // the same instant through other read shapes (oracle only): a point lookup, a
+                    // context-scoped selection, a REPLAY of a context, a LIMIT read
+                    if shape_fail.is_none() && !placed.is_empty() {
+                        let (pk, pctx, pty) = placed[shape_rng.below(placed.len() as u64) as usize];
+                        let keys = |r: &snel_harness::sys::Reply| -> Vec<u64> {
+                            let mut v: Vec<u64> = r.col("k").iter().filter_map(|x| x.as_u64()).collect();
+                            v.sort();
+                            v
+                        };
+                        let mut shapes: Vec<(String, Vec<u64>)> = vec![];
+                        shapes.push((format!("QUERY ev{pty} WHERE k = {pk}"), vec![pk]));
+                        let mut want_ctx: Vec<u64> = placed.iter().filter(|p| p.1 == pctx && p.2 == pty).map(|p| p.0).collect();
+                        want_ctx.sort();
+                        shapes.push((format!("QUERY ev{pty} FOR c{pctx} RETURN [k]"), want_ctx.clone()));
+                        shapes.push((format!("REPLAY ev{pty} FOR c{pctx}"), want_ctx));
+                        for (q, want) in shapes {
+                            let r = ex.s.cmd(&q).expect("child died in a shaped read");
+                            let got = keys(&r);
+                            if !r.ok() || got != want {
+                                shape_fail = Some(format!("-\top#{n}: `{q}` returned {got:?} (status {}), acknowledged {want:?}; in {}", r.status_class(), history_line(&cfg, ntypes, &ops)));
+                                break;
+                            }
+                        }
+                        if shape_fail.is_none() {
+                            let total = placed.iter().filter(|p| p.2 == pty).count();
+                            let lim = 1 + shape_rng.below(total as u64 + 1) as usize;
+                            let q = format!("QUERY ev{pty} RETURN [k] LIMIT {lim}");
+                            let r = ex.s.cmd(&q).expect("child died in a shaped read");
+                            let got = keys(&r);
+                            let distinct = got.windows(2).all(|w| w[0] != w[1]);
+                            let known = got.iter().all(|k| placed.iter().any(|p| p.0 == *k && p.2 == pty));
+                            if !r.ok() || got.len() != lim.min(total) || !distinct || !known {
+                                shape_fail = Some(format!("-\top#{n}: `{q}` returned {got:?}: want {} distinct acknowledged events; in {}", lim.min(total), history_line(&cfg, ntypes, &ops)));
+                            }
+                        }
+                        st.tally_n("shaped_reads", 4);
+                    }
                 }
                 obs.push(line);
             }
@@ -162,7 +205,7 @@ fn main() {
         st.tally_n("reads", ops.iter().filter(|o| **o == Op::R).count() as u64);
         st.tally_n("adv", ops.iter().filter(|o| **o == Op::Adv).count() as u64);
         st.case(&history_line(&cfg, ntypes, &ops), &obs.join(" ; "), applied.len() >= cfg.capacity());
-        match fail {
+        match shape_fail.or(fail) {
             None => st.oracle_ok(),
             Some(f) => {
                 let (class, detail) = f.split_once('\t').unwrap();
